@@ -400,7 +400,7 @@ def validate(seq, _depth=0):
             assert len(n) == 4 and isinstance(n[1], str) and n[1] and all(c in string.ascii_letters + "_" for c in n[1])
             assert isinstance(n[2], list)
             for p in n[2]:
-                assert isinstance(p, str) and p and (p.isdecimal() or all((c.isalnum() or c == "_") and c in CP for c in p))
+                assert isinstance(p, str) and p and (p == "*" or p.isdecimal() or all((c.isalnum() or c == "_") and c in CP for c in p))
             validate(n[3], _depth + 1)
         elif k == "call":
             assert len(n) == 2 and isinstance(n[1], str) and n[1] and all(c in string.ascii_letters + "_" for c in n[1])
